@@ -16,10 +16,34 @@ type Ctx struct {
 	sid      uint64
 	w        bool // a cancellation raced with readers: reads and the cancel are scheduling points
 	touchers []*Thread
+	// cancelled is set by the cancel shims; isDone walks the wrapper chain instead of calling
+	// into the (race-instrumented) stdlib from the scheduler
+	cancelled   bool
+	hasDeadline bool
+}
+
+type wrapperKey struct{}
+
+// Value lets wrap() find the nearest wrapper ancestor through foreign context layers.
+func (c *Ctx) Value(key any) any {
+	if _, ok := key.(wrapperKey); ok {
+		return c
+	}
+	return c.Context.Value(key)
 }
 
 //go:norace
-func (c *Ctx) isDone() bool { return c.Context.Err() != nil }
+func (c *Ctx) isDone() bool {
+	for p := c; p != nil; p = p.parent {
+		if p.cancelled {
+			return true
+		}
+		if p.hasDeadline && p.Context.Err() != nil {
+			return true
+		}
+	}
+	return false
+}
 
 // obs folds this context's and every ancestor's hash into the running thread's hash.
 //
@@ -96,6 +120,7 @@ func (c *Ctx) beforeCancel() {
 	c.oh.touchW(43)
 }
 
+//go:norace
 func (c *Ctx) Done() <-chan struct{} {
 	if S != nil && !S.aborting && S.quiet == 0 && S.inline == 0 {
 		if c.touch() {
@@ -106,6 +131,7 @@ func (c *Ctx) Done() <-chan struct{} {
 	return c.Context.Done()
 }
 
+//go:norace
 func (c *Ctx) Err() error {
 	if S != nil && !S.aborting && S.quiet == 0 && S.inline == 0 {
 		if c.touch() {
@@ -120,6 +146,8 @@ func (c *Ctx) Err() error {
 func wrap(parent context.Context, inner context.Context) *Ctx {
 	c := &Ctx{Context: inner}
 	if p, ok := parent.(*Ctx); ok {
+		c.parent = p
+	} else if p, ok := parent.Value(wrapperKey{}).(*Ctx); ok {
 		c.parent = p
 	}
 	if S != nil && !S.aborting {
@@ -140,25 +168,30 @@ type canceler struct {
 	cancel context.CancelFunc
 }
 
+//go:norace
 func (k *canceler) do() {
 	if S != nil && !S.aborting && S.inline == 0 {
 		k.c.beforeCancel()
 	}
+	k.c.cancelled = true
 	k.cancel()
 }
 
+//go:norace
 func quietOn() {
 	if S != nil {
 		S.quiet++
 	}
 }
 
+//go:norace
 func quietOff() {
 	if S != nil {
 		S.quiet--
 	}
 }
 
+//go:norace
 func WithCancel(parent context.Context) (context.Context, context.CancelFunc) {
 	quietOn()
 	inner, cancel := context.WithCancel(parent)
@@ -173,13 +206,16 @@ type causeCanceler struct {
 	cancel context.CancelCauseFunc
 }
 
+//go:norace
 func (k *causeCanceler) do(err error) {
 	if S != nil && !S.aborting && S.inline == 0 {
 		k.c.beforeCancel()
 	}
+	k.c.cancelled = true
 	k.cancel(err)
 }
 
+//go:norace
 func WithCancelCause(parent context.Context) (context.Context, context.CancelCauseFunc) {
 	quietOn()
 	inner, cancel := context.WithCancelCause(parent)
@@ -191,20 +227,25 @@ func WithCancelCause(parent context.Context) (context.Context, context.CancelCau
 
 // WithTimeout / WithDeadline: the timer is real time and therefore outside the scheduler;
 // harnesses use timeouts far beyond an execution's duration.
+//
+//go:norace
 func WithTimeout(parent context.Context, d time.Duration) (context.Context, context.CancelFunc) {
 	quietOn()
 	inner, cancel := context.WithTimeout(parent, d)
 	quietOff()
 	c := wrap(parent, inner)
+	c.hasDeadline = true
 	k := &canceler{c: c, cancel: cancel}
 	return c, k.do
 }
 
+//go:norace
 func WithDeadline(parent context.Context, t time.Time) (context.Context, context.CancelFunc) {
 	quietOn()
 	inner, cancel := context.WithDeadline(parent, t)
 	quietOff()
 	c := wrap(parent, inner)
+	c.hasDeadline = true
 	k := &canceler{c: c, cancel: cancel}
 	return c, k.do
 }
